@@ -9,7 +9,7 @@ use std::collections::{BTreeSet, VecDeque};
 use std::sync::atomic::{AtomicU64, Ordering};
 use vmodel::glue::AsData;
 use vmodel::shape::*;
-use vmodel::spec::{spec_decode, spec_encode, EncErr};
+use vmodel::spec::{spec_encode, EncErr};
 
 pub struct EioVec(pub Vec<u8>);
 impl embedded_io::ErrorType for EioVec {
@@ -321,9 +321,8 @@ pub fn run(ctx: &Ctx, c02: bool) {
                         return Ok(());
                     }
                     check_encoders(v, &e)?;
-                    let sd = spec_decode(s, &e);
-                    let need: usize = sd.takes.iter().map(|t| t.len).sum();
-                    check_decoders(v, &e, need)
+                    // scratch for the reader path: every take is part of the encoding, so |e| always suffices
+                    check_decoders(v, &e, e.len())
                 });
                 let r = match r {
                     Ok(x) => x,
